@@ -1594,9 +1594,14 @@ func (h *Heap) dryRun(op *HOp) error {
 func registerC09() {
 	mk := func(name string, count map[string]int, maxOps int) *Workload {
 		return &Workload{
-			Name:     name,
-			Count:    func(tier string) int { return count[tier] },
-			Gen:      func(i int, t *Tape, tier string) any { return genHeapCase(t, maxOps) },
+			Name:  name,
+			Count: func(tier string) int { return count[tier] },
+			Gen: func(i int, t *Tape, tier string) any {
+				if tier == "thorough" {
+					return genHeapCase(t, maxOps*5/2)
+				}
+				return genHeapCase(t, maxOps)
+			},
 			Run:      func(c any, keep bool) Outcome { return runHeapCase(c.(*HeapCase), keep) },
 			New:      func() any { return &HeapCase{} },
 			Simplify: simplifyHeap,
